@@ -15029,6 +15029,7 @@ func (l *Lowerer) lowerTextureAtomic(name string, args []parser.Expr, target *[]
 		fun = ir.AtomicExclusiveOr{}
 	}
 
+	l.flushEmitBeforeStatement(target)
 	*target = append(*target, ir.Statement{
 		Kind: ir.StmtImageAtomic{
 			Image:      image,
@@ -15038,6 +15039,7 @@ func (l *Lowerer) lowerTextureAtomic(name string, args []parser.Expr, target *[]
 			Value:      value,
 		},
 	})
+	l.restartEmitAfterStatement(target)
 
 	// textureAtomic* functions return nothing in WGSL
 	return 0, nil
@@ -15233,14 +15235,35 @@ func (l *Lowerer) lowerAtomicStore(args []parser.Expr, target *[]ir.Statement) (
 
 	// Rust naga emits a plain Store for atomicStore, not an Atomic statement.
 	// See naga/src/front/wgsl/lower/mod.rs around line 2895.
+	l.flushEmitBeforeStatement(target)
 	*target = append(*target, ir.Statement{
 		Kind: ir.StmtStore{
 			Pointer: pointer,
 			Value:   value,
 		},
 	})
+	l.restartEmitAfterStatement(target)
 
 	return 0, nil // No return value
+}
+
+// flushEmitBeforeStatement closes the pending emit range so that the operands of
+// a statement appended from expression position (atomicStore, textureAtomic*,
+// ray-query calls) are emitted before the statement, as lowerCall does for
+// StmtCall.
+func (l *Lowerer) flushEmitBeforeStatement(target *[]ir.Statement) {
+	if l.emitStateStart != nil {
+		emitStart := *l.emitStateStart
+		l.emitFinish(emitStart, target)
+	}
+}
+
+// restartEmitAfterStatement restarts emit tracking after such a statement so the
+// caller's emitFinish does not emit the earlier expressions a second time.
+func (l *Lowerer) restartEmitAfterStatement(target *[]ir.Statement) {
+	newStart := l.currentExprIdx
+	l.emitStateStart = &newStart
+	l.currentEmitTarget = target
 }
 
 // lowerAtomicLoad converts atomicLoad(&ptr) to IR.
@@ -15941,12 +15964,14 @@ func (l *Lowerer) lowerRayQueryCall(name string, args []parser.Expr, target *[]i
 		}
 		// hit_t is always f32 — concretize abstract literals
 		l.concretizeAbstractToDefaultFloat(hitT)
+		l.flushEmitBeforeStatement(target)
 		*target = append(*target, ir.Statement{
 			Kind: ir.StmtRayQuery{
 				Query: query,
 				Fun:   ir.RayQueryGenerateIntersection{HitT: hitT},
 			},
 		})
+		l.restartEmitAfterStatement(target)
 		return 0, nil
 
 	case "rayQueryConfirmIntersection":
@@ -15958,12 +15983,14 @@ func (l *Lowerer) lowerRayQueryCall(name string, args []parser.Expr, target *[]i
 		if err != nil {
 			return 0, fmt.Errorf("rayQueryConfirmIntersection: %w", err)
 		}
+		l.flushEmitBeforeStatement(target)
 		*target = append(*target, ir.Statement{
 			Kind: ir.StmtRayQuery{
 				Query: query,
 				Fun:   ir.RayQueryConfirmIntersection{},
 			},
 		})
+		l.restartEmitAfterStatement(target)
 		return 0, nil
 
 	case "rayQueryTerminate":
@@ -15975,12 +16002,14 @@ func (l *Lowerer) lowerRayQueryCall(name string, args []parser.Expr, target *[]i
 		if err != nil {
 			return 0, fmt.Errorf("rayQueryTerminate: %w", err)
 		}
+		l.flushEmitBeforeStatement(target)
 		*target = append(*target, ir.Statement{
 			Kind: ir.StmtRayQuery{
 				Query: query,
 				Fun:   ir.RayQueryTerminate{},
 			},
 		})
+		l.restartEmitAfterStatement(target)
 		return 0, nil
 
 	default:
